@@ -568,14 +568,46 @@ fn picture(b: &Buffer) -> Picture {
     Picture { w, h, cells }
 }
 
-fn picture_diff(a: &Picture, b: &Picture) -> Option<(bool, String)> {
-    if (a.w, a.h) != (b.w, b.h) {
-        return Some((true, format!("size with SAUCE {}x{}, content alone {}x{}", a.w, a.h, b.w, b.h)));
+/// loaders built on `parse_with_parser` (a terminal emulation over the content: form feed, cursor addressing ... refer to the screen height)
+fn ansi_family(loader: u8) -> bool {
+    matches!(loader, ANS | ASC | PCB | AVT)
+}
+
+/// The record's number of lines is a setting the loader may use (the property conditions the equality of the pictures on width, iCE colours and
+/// font only, and does not say the height field is ignored). `record_height`: the number of lines the record states (None: the variant has no such field).
+/// With an ANSI-family loader and a stated height other than the loader's default of 25 the two pictures may differ in the number of *blank* rows at the bottom.
+fn blank_rows_ok(loader: u8, record_height: Option<i32>) -> bool {
+    ansi_family(loader) && record_height.is_some_and(|h| h != 25)
+}
+
+/// A file of another format that the file name sends to the ANSI loader (c11.nfo holding Avatar or bin bytes) is arbitrary input to a terminal emulation:
+/// attribute bytes read as ESC M (reverse index), form feed, scrolling ... and those act on the screen height, which the loader takes from the record.
+/// There the differential clause is only claimed when the record's number of lines is the loader's default too (or the variant states none).
+fn height_neutral(loader: u8, fmt: u8, record_height: Option<i32>) -> bool {
+    !(ansi_family(loader) && loader != fmt) || record_height.is_none_or(|h| h == 25)
+}
+
+fn is_blank(c: &(u32, u32, u32, u16, usize, (u8, u8, u8), (u8, u8, u8))) -> bool {
+    (c.0 == 0x20 || c.0 == 0) && (c.2 == 0 || c.6 == (0, 0, 0))
+}
+
+/// Some((size clause?, description)) when the pictures differ. Widths must be equal; every row present in both must be equal cell by cell;
+/// the heights must be equal too, unless `blank_rows_ok` and every row that only one picture has is entirely blank (no character, default or black background).
+fn picture_diff(a: &Picture, b: &Picture, blank_rows_ok: bool) -> Option<(bool, String)> {
+    let size = || format!("size with SAUCE {}x{}, content alone {}x{}", a.w, a.h, b.w, b.h);
+    if a.w != b.w || (a.h != b.h && !blank_rows_ok) {
+        return Some((true, size()));
     }
     for (i, (p, q)) in a.cells.iter().zip(b.cells.iter()).enumerate() {
         if p != q {
             return Some((false, format!("cell ({},{}) with SAUCE {:?}, content alone {:?}", i as i32 % a.w, i as i32 / a.w, p, q)));
         }
+    }
+    let common = a.cells.len().min(b.cells.len());
+    let longer = if a.cells.len() > b.cells.len() { &a.cells } else { &b.cells };
+    if let Some(i) = longer[common..].iter().position(|c| !is_blank(c)) {
+        let i = (common + i) as i32;
+        return Some((true, format!("{}; row {} exists in one picture only and is not blank: cell ({},{}) = {:?}", size(), i / a.w.max(1), i % a.w.max(1), i / a.w.max(1), longer[i as usize])));
     }
     None
 }
@@ -667,7 +699,7 @@ fn width() -> BoxedStrategy<u16> {
 }
 
 /// sizes that mean something elsewhere (text modes, pixel resolutions, limits)
-const GRID_W: [u16; 17] = [1, 2, 40, 79, 80, 81, 132, 160, 255, 256, 320, 511, 512, 640, 800, 999, 1000];
+const GRID_W: [u16; 18] = [1, 2, 40, 79, 80, 81, 132, 160, 255, 256, 320, 511, 512, 640, 720, 800, 999, 1000];
 const GRID_H: [u16; 15] = [1, 2, 24, 25, 26, 43, 50, 60, 100, 200, 350, 400, 480, 600, 1000];
 
 fn height() -> BoxedStrategy<u16> {
@@ -763,6 +795,10 @@ fn wcase(fmt: u8, defaults: bool) -> BoxedStrategy<WCase> {
         .prop_map(move |((title, author, group, comments), (ice, letter_spacing, aspect_ratio, font, width), (mut height, cells, tag), (history, prev, mut doc, name))| {
             let mut meta = Meta { title, author, group, comments, ice, letter_spacing, aspect_ratio, font, width };
             normalise(fmt, &mut meta, &mut doc, &mut height, tag);
+            // pcb/avt/asc files under a name that selects the ANSI loader: the differential clause needs the default number of lines there (see height_neutral)
+            if defaults && matches!(name.kind, 4..=7) && matches!(fmt, ASC | PCB | AVT) && tag % 4 != 0 {
+                height = 25;
+            }
             WCase { fmt, meta, height, cells, history, prev: if history == 0 { None } else { Some(prev) }, doc, name }
         })
         .boxed()
@@ -908,7 +944,8 @@ fn rcase(fmt: u8) -> BoxedStrategy<RCase> {
                 comment_pad_nul,
                 ls,
                 ar,
-                lines_sel,
+                // pcb/avt/asc bytes under a name that selects the ANSI loader: the differential clause needs the default number of lines there (see height_neutral)
+                lines_sel: if matches!(name.kind, 4..=7) && fmt != ANS && lines_val % 4 != 0 { 2 } else { lines_sel },
                 lines_val,
                 // bin has no "0 means 80" default of its own (its loader default is 160); block formats carry their width themselves
                 width_sel: if fmt == BIN { 0 } else { width_sel },
@@ -1277,7 +1314,16 @@ fn check_writer_split_once(c: &WCase) -> Verdict {
         Ok(b) => b,
         Err(e) => return Verdict::fail(format!("load.error.nosauce|fmt={fmt}"), format!("file written without SAUCE does not load: {e}")),
     };
-    if let Some((size, d)) = picture_diff(&picture(&a), &picture(&b)) {
+    // number of lines in the record the writer made: the buffer height (TundraDraw records are written without it, BinaryText has no such field)
+    let record_height = match c.fmt {
+        BIN | IDF => None,
+        TND => Some(0),
+        _ => Some(c.height as i32),
+    };
+    if !height_neutral(loader, c.fmt, record_height) {
+        return Verdict::pass(meta_nontrivial(&m.title, &m.author, &m.group, &m.comments), format!("{}|layout-only", wclass(c)));
+    }
+    if let Some((size, d)) = picture_diff(&picture(&a), &picture(&b), blank_rows_ok(loader, record_height)) {
         return Verdict::fail(format!("differential.{}|fmt={fmt}", if size { "size" } else { "cells" }), d);
     }
     Verdict::pass(meta_nontrivial(&m.title, &m.author, &m.group, &m.comments), format!("{}|differential", wclass(c)))
@@ -1468,8 +1514,12 @@ fn check_reader_split_once(c: &RCase) -> Verdict {
         Err(e) => return Verdict::fail(format!("differential.load_error|fmt={fmt}"), format!("content alone loads, content+EOF+SAUCE does not: {e}")),
     };
     let describe = || format!("record DataType={data_type} FileType={file_type} TInfo={tinfo:?} TFlags={tflags:#04x} FileSize={file_size} (content {len} bytes) Date=\"{}\" ({lines_class}), {n} comment lines, content tail kind {}, loaded as {path:?}", escape(&date), c.tail);
-    if let Some((size, d)) = picture_diff(&picture(&loaded), &plain_pic) {
-        return Verdict::fail(format!("differential.{}|fmt={fmt}", if size { "size" } else { "cells" }), format!("{}: {d}", describe()));
+    // the number of lines this record states, in the reading of its own variant (TInfo2 for the Character text types and XBin)
+    let record_height = if data_type != 5 && variant_has_tinfo_width(data_type, file_type) { Some(tinfo[1] as i32) } else { None };
+    if height_neutral(loader, c.fmt, record_height) {
+        if let Some((size, d)) = picture_diff(&picture(&loaded), &plain_pic, blank_rows_ok(loader, record_height)) {
+            return Verdict::fail(format!("differential.{}|fmt={fmt}", if size { "size" } else { "cells" }), format!("{}: {d}", describe()));
+        }
     }
     // the metadata every variant carries, and the render hints of the variants the crate's own writers produce (ASCII, ANSi, BinaryText)
     let hand = "hand_built";
@@ -1589,7 +1639,7 @@ fn check_degenerate(c: &DCase) -> Verdict {
         Ok(b) => b,
         Err(e) => return Verdict::fail(format!("differential.load_error|fmt={fmt}"), e.to_string()),
     };
-    if let Some((size, d)) = picture_diff(&picture(&loaded), &picture(&plain)) {
+    if let Some((size, d)) = picture_diff(&picture(&loaded), &picture(&plain), blank_rows_ok(loader, if c.fmt == BIN { None } else { Some(0) })) {
         return Verdict::fail(format!("differential.{}|fmt={fmt}", if size { "size" } else { "cells" }), d);
     }
     Verdict::pass(n > 0 || c.content.is_empty(), format!("{fmt}|{}|content={}", if c.eof { "eof" } else { "no_eof" }, c.content.len()))
@@ -1630,7 +1680,7 @@ fn main() {
          fake comment blocks, whole fake trailers (and the same markers in the middle of the content), or writer-made xb/tnd/adf/idf content, followed by a trailer from the harness' own SAUCE rev.5 encoder (default width / 0 / >1000, ice off, font empty or IBM VGA, \
          any TInfo2, any LS/AR incl. the invalid value 3); in half of the records the fields that carry nothing the property lists are arbitrary: FileSize {content length, 0, 1, length-1, length+1, length+2, 2^32-1, random}, \
          Date {valid, blanks, zeroes, impossible, NULs, random bytes}, TInfo3/4, reserved TFlags bits (whole TFlags where the variant has none), TInfoS behind its terminator (whole TInfoS where the variant has no FontName), \
-         DataType/FileType any pair (width written where that variant keeps it; bin keeps BinaryText); loaded title/author/group/comment lines (and iCE/LS/AR for ASCII, ANSi, BinaryText records) must be the record's. size_grid: exhaustive widths {1,2,40,79,80,81,132,160,255,256,320,511,512,640,800,999,1000} x the grid heights x {ans,asc,pcb,avt,tnd,bin} through the metadata round trip. degenerate: all comment counts 0..=255 x content of 0,1,2 bytes x {ans,bin}, and the files that are nothing but [COMNT]+record without EOF. \
+         DataType/FileType any pair (width written where that variant keeps it; bin keeps BinaryText); loaded title/author/group/comment lines (and iCE/LS/AR for ASCII, ANSi, BinaryText records) must be the record's. size_grid: exhaustive widths {1,2,40,79,80,81,132,160,255,256,320,511,512,640,720,800,999,1000} x the grid heights x {ans,asc,pcb,avt,tnd,bin} through the metadata round trip. degenerate: all comment counts 0..=255 x content of 0,1,2 bytes x {ans,bin}, and the files that are nothing but [COMNT]+record without EOF. \
          Every part loads under a file name drawn from {c11.ext | C11.EXT | c11.eXt | alternative extension (ice, diz) | unregistered extension nfo txt mem x sauce an ansi | c11 | .ext | pic.ext.bak | pic.bak.ext | dir.xb/pic.ext}. \
          Non-trivial: >= 1 comment line, or a title/author/group/comment at its maximal length, or (reader_split) marker-like content tail; degenerate: >= 1 comment or empty content. Distinct by case hash.",
     );
@@ -1639,6 +1689,8 @@ fn main() {
     eng.assume("a font name longer than the 22 byte FontName field is expected back cut to 22 characters; for hand-built records only title/author/group/comment lines and the flags of ASCII, ANSi and BinaryText records are asserted, nothing about variants the crate's writers never produce");
     eng.assume("the file name selects the loader: every spelling of a registered or alternative extension (lower, UPPER, MiXed, pic.bak.ext, dir.xb/pic.ext) the format's own, anything else (unregistered extension, pic.ext.bak, no extension, .ext) the ANSI loader with its defaults; both loads of the differential clause use the same name; names that send a file to the ANSI loader are used for ans/asc/pcb/avt/bin files only; a name without extension is discarded while Buffer::from_bytes panics on it before reading any data (C02's subject)");
     eng.assume("font names are compared without trailing blanks; Date and FileSize are not part of the property and are not asserted");
+    eng.assume("differential clause: widths equal and all common rows equal cell by cell; heights equal too, except that with an ANSI-family loader (ans, asc, pcb, avt and the ANSI fallback) and a record whose number of lines is not the default 25 the pictures may differ in entirely blank rows at the bottom (the record's height is a setting the loader may use, e.g. for form feed; the property conditions the equality on width, iCE and font only and does not say the height is ignored). Rows that are not blank - e.g. trailer bytes drawn as content - still fail");
+    eng.assume("a file of another format sent to the ANSI loader by its name (Avatar / PCBoard / ASCII bytes as c11.nfo) is arbitrary input to a terminal emulation whose screen height comes from the record (an Avatar attribute byte 0x1B + 'M' is a reverse index there): for those the differential clause is claimed only when the record's number of lines is the default 25 as well (or the variant states none); the generators put most such cases at 25 lines");
     eng.assume("'picture' = buffer size and, per cell, character, colour indices, attribute bits, font page and the palette RGB of both colours");
     eng.assume("content that by itself ends in a well-formed record is ambiguous for Buffer::from_bytes: its reference picture is taken from the format loader called without SAUCE");
 
